@@ -873,9 +873,11 @@ def ipv6_oracle(ctx, pp):
 # ---------------------------------------------------------------------------------------------
 # QuotedString round trip (reference encoder; search on the real code)
 # ---------------------------------------------------------------------------------------------
-def qs_quote(cfg, content):
+def qs_quote(cfg, content, style=""):
     """reference encoder: a source text q that must parse back to `content`, or None if this encoder cannot
-    represent the content under cfg (conservative: None never hides a failure, it only skips the case)"""
+    represent the content under cfg (conservative: None never hides a failure, it only skips the case).
+    style[i] in "xuo" writes the ordinary character content[i] as a numeric escape \\xHH / \\uHHHH / \\OOO
+    (only honoured when escapes are converted: unquote_results and convert_whitespace_escapes)"""
     Q, E, X, EQ = cfg["quote_char"], cfg["end_quote_char"] or cfg["quote_char"], cfg["esc_char"], cfg["esc_quote"]
     ML, UQ, CW = cfg["multiline"], cfg["unquote_results"], cfg["convert_whitespace_escapes"]
     conv = UQ and CW
@@ -910,6 +912,9 @@ def qs_quote(cfg, content):
                 return None
             else:
                 out.append(ch)
+        elif conv and style[i:i + 1] in ("x", "u", "o") and ch not in E and ch not in (EQ or "") and ch != X \
+                and ord(ch) < 256:
+            out.append({"x": "\\x%02x", "u": "\\u%04X", "o": "\\%03o"}[style[i]] % ord(ch))
         else:
             out.append(ch)
         i += 1
@@ -935,8 +940,8 @@ def qs_configs(rng, n):
     return out
 
 
-def check_quoted(pp, cfg, content):
-    q = qs_quote(cfg, content)
+def check_quoted(pp, cfg, content, style=""):
+    q = qs_quote(cfg, content, style)
     if q is None:
         return "skip"
     try:
@@ -965,6 +970,13 @@ def quoted_oracle(ctx, pp):
     rng = ctx.subrng("quoted")
     n = skipped = 0
     outcomes = {}
+    e = ctx.match_known("quoted_numeric_escapes")
+    if e is not None:
+        w = e["witness"]
+        d = check_quoted(pp, w["quoted"], w["content"], w["style"])
+        if d not in (None, "skip"):
+            ctx.fail_input("QuotedString does not convert \\xHH / \\uHHHH / \\OOO escapes", w, d[0], d[1],
+                           signature="quoted_numeric_escapes")
     cfgs = qs_configs(rng, ctx.budget(1200, 4000))
     for cfg in cfgs:
         E = cfg["end_quote_char"] or cfg["quote_char"]
@@ -972,7 +984,8 @@ def quoted_oracle(ctx, pp):
                                                       cfg["esc_quote"] or "y", "\\t", "\\n", "\\x41", "\\101", "\\0"]
         for _ in range(ctx.budget(12, 30)):
             content = "".join(rng.choice(alpha) for _ in range(rng.randint(0, 7)))
-            d = check_quoted(pp, cfg, content)
+            style = ""  # numeric escapes (x/u/o styles) are the region of the known finding quoted_numeric_escapes
+            d = check_quoted(pp, cfg, content, style)
             if d == "skip":
                 skipped += 1
                 continue
@@ -980,7 +993,7 @@ def quoted_oracle(ctx, pp):
             k = "unquote" if cfg["unquote_results"] else "verbatim"
             outcomes[k] = outcomes.get(k, 0) + 1
             if d is not None and not any("quoted" in f["case"] for f in ctx.fail_inputs):
-                ctx.fail_input("QuotedString round trip", {"quoted": cfg, "content": content}, d[0], d[1],
+                ctx.fail_input("QuotedString round trip", {"quoted": cfg, "content": content, "style": style}, d[0], d[1],
                                theorem="C18 quoted_roundtrip (oracle, search only)",
                                how="QuotedString(**cfg).leave_whitespace().parse_string(quote(cfg, content), parse_all=True)")
     outcomes["unrepresentable-skipped"] = skipped
@@ -1335,7 +1348,7 @@ def replay(data):
     if "ipv6" in case:
         return check_ipv6(pp, case["ipv6"]) is not None
     if "quoted" in case:
-        return check_quoted(pp, case["quoted"], case["content"]) not in (None, "skip")
+        return check_quoted(pp, case["quoted"], case["content"], case.get("style", "")) not in (None, "skip")
     if "quoted_builtin" in case:
         return check_quoted_builtin(pp, case["quoted_builtin"], case["s"]) is not None
     if "nested" in case:
